@@ -22,9 +22,6 @@ pub struct NestedLoopJoinExecutor {
 impl NestedLoopJoinExecutor {
     #[try_stream(boxed, ok = DataChunk, error = ExecutorError)]
     pub async fn execute(self, left_child: BoxedExecutor, right_child: BoxedExecutor) {
-        if !matches!(self.op, Expr::Inner | Expr::LeftOuter) {
-            todo!("unsupported join type: {:?}", self.op);
-        }
         let left_chunks = left_child.try_collect::<Vec<DataChunk>>().await?;
 
         let left_rows = || left_chunks.iter().flat_map(|chunk| chunk.rows());
@@ -34,10 +31,16 @@ impl NestedLoopJoinExecutor {
         let mut filter_builder = BoolArrayBuilder::with_capacity(PROCESSING_WINDOW_SIZE);
 
         let mut right_row_num = 0;
+        // right rows are kept for the unmatched rows of a right / full outer join
+        let keep_right = matches!(self.op, Expr::RightOuter | Expr::FullOuter);
+        let mut right_chunks = vec![];
         // inner join: left x right
         #[for_await]
         for right_chunk in right_child {
             let right_chunk = right_chunk?;
+            if keep_right {
+                right_chunks.push(right_chunk.clone());
+            }
             for right_row in right_chunk.rows() {
                 for left_row in left_rows() {
                     let values = left_row.values().chain(right_row.values());
@@ -67,8 +70,29 @@ impl NestedLoopJoinExecutor {
         }
         let filter = filter_builder.take();
 
+        // append rows for right outer join: right rows without any matching left row
+        if keep_right {
+            let left_row_num = left_rows().count();
+            let right_rows = right_chunks.iter().flat_map(|chunk| chunk.rows());
+            for (j, right_row) in right_rows.enumerate() {
+                // `filter` holds the results of `right x left`: the row of right row `j` is
+                // `filter[j * left_row_num .. (j + 1) * left_row_num]`
+                let matched = (j * left_row_num..(j + 1) * left_row_num)
+                    .any(|i| matches!(filter.get(i), Some(true)));
+                if matched {
+                    continue;
+                }
+                let values =
+                    (self.left_types.iter().map(|_| DataValue::Null)).chain(right_row.values());
+                if let Some(chunk) = builder.push_row(values) {
+                    yield chunk;
+                }
+                tokio::task::consume_budget().await;
+            }
+        }
+
         // append rows for left outer join
-        if matches!(self.op, Expr::LeftOuter) {
+        if matches!(self.op, Expr::LeftOuter | Expr::FullOuter) {
             // we need to pick row of left_row which unmatched rows
             let left_row_num = left_rows().count();
             for (mut i, left_row) in left_rows().enumerate() {
